@@ -282,6 +282,10 @@ func seqMap(a map[string]string) {
 		g.pool = []int{4, 12, 60, 300, 1500}[r.intn(5)]
 		hints := []string{"none", "none", "-5", "0", "1", "96", "97", "161", "1000", "5000"}
 		hint := hints[r.intn(len(hints))]
+		if !wb && r.chance(1, 8) {
+			// a table large enough for 16 / 32 counter stripes (tableLen >> 10 above minMapCounterLen)
+			hint = []string{"40000", "70000"}[r.intn(2)]
+		}
 		growOnly := "0"
 		if r.chance(1, 6) {
 			growOnly = "1"
